@@ -50,6 +50,12 @@ def run(ctx):
     traces = vlib.split_traces(events)
     ctx.evaluations = len(traces)
     hangs = [t for t in traces if any(e["ev"] == "hang" for e in t)]
+    if hangs:
+        # the driver gave up waiting (overloaded machine, or the code stopped making requests): not judged
+        if len(hangs) > max(3, len(traces) // 20):
+            raise vlib.InfraError("%d of %d scenarios timed out in the driver" % (len(hangs), len(traces)))
+        events = [e for t in traces if t not in hangs for e in t]
+        traces = [t for t in traces if t not in hangs]
     unused = [t[0] for t in traces if t[0].get("unused_steps")]
     if unused:
         ctx.drift.append("%d scenarios ended before all model steps were used (first scn=%s)"
